@@ -10,7 +10,7 @@ BASE = dict(
     RENDERKINDS='{}', ENC8='{FALSE}', DSNS='{"off"}', NONOOP='{FALSE}',
     SHAPES='{"lead"}', CLASSES='{"t4", "p5", "drop"}', CODESETS='{51}',
     POLICIES='{"none"}', AUTHTYPES='{"NOAUTH"}', HOSTKINDS='{"other"}', STARTTLSADV='{FALSE}',
-    AUTHLISTS='{{}}', HANDSHAKES='{"ok"}', CAPS2='{{}}', LOGAUTH='{FALSE}',
+    AUTHLISTS='{{}}', HANDSHAKES='{"ok"}', CAPS2='{{}}', LOGAUTH='{FALSE}', LOGGERS='{"capture"}',
     DEV_ImplicitDot='FALSE', DEV_NoRsetAfterDataReject='FALSE', DEV_ContinueAfterRsetFail='FALSE',
     DEV_LeakOnDialError='FALSE', DEV_QuitFailureLeavesConn='FALSE', DEV_NoDeadlineInDial='FALSE',
     DEV_NoopBeforeDeadline='FALSE', DEV_WindowStaysOpen='FALSE')
@@ -114,6 +114,57 @@ STAGES = {
             ('reset-stall', 'Session', cfg(OP='"Reset"', N='1', MAXR='1', BUDGET='2', CAPSETS='{{}}', CLASSES='{"stall", "t4"}', NONOOP='BOOLEAN')),
         ],
     },
+    'C16': {
+        'quick': [
+            ('dial-auth-clear-b1', 'Session', cfg(OP='"Dial"', N='1', MAXR='1', BUDGET='1', CAPSETS='{{}}', CLASSES='{"p5", "drop", "mal"}',
+                                                  AUTHTYPES='{"PLAIN-NOENC", "LOGIN-NOENC", "CRAM-MD5", "XOAUTH2", "SCRAM-SHA-1", "SCRAM-SHA-256", "AUTODISCOVER"}',
+                                                  AUTHLISTS='{{"PLAIN", "LOGIN", "CRAM-MD5", "XOAUTH2", "SCRAM-SHA-1", "SCRAM-SHA-256", "SCRAM-SHA-1-PLUS", "SCRAM-SHA-256-PLUS"}}', LOGAUTH='BOOLEAN', LOGGERS='{"capture", "std", "json"}')),
+            ('dial-auth-tls-b1', 'Session', cfg(OP='"Dial"', N='1', MAXR='1', BUDGET='1', CAPSETS='{{}}', CLASSES='{"p5", "mal"}',
+                                                POLICIES='{"mandatory"}', STARTTLSADV='{TRUE}',
+                                                AUTHTYPES='{"PLAIN", "LOGIN", "SCRAM-SHA-256-PLUS", "SCRAM-SHA-1-PLUS", "AUTODISCOVER"}',
+                                                AUTHLISTS='{{"PLAIN", "LOGIN", "CRAM-MD5", "XOAUTH2", "SCRAM-SHA-1", "SCRAM-SHA-256", "SCRAM-SHA-1-PLUS", "SCRAM-SHA-256-PLUS"}}', LOGAUTH='BOOLEAN', LOGGERS='{"capture", "json"}')),
+            ('send-after-auth-b1', 'Session', cfg(N='1', MAXR='1', BUDGET='1', CAPSETS='{{}}', CLASSES='{"p5"}',
+                                                  AUTHTYPES='{"PLAIN-NOENC", "LOGIN-NOENC", "SCRAM-SHA-256", "XOAUTH2"}',
+                                                  AUTHLISTS='{{"PLAIN", "LOGIN", "CRAM-MD5", "XOAUTH2", "SCRAM-SHA-1", "SCRAM-SHA-256", "SCRAM-SHA-1-PLUS", "SCRAM-SHA-256-PLUS"}}', LOGAUTH='BOOLEAN', LOGGERS='{"capture", "std", "json"}')),
+        ],
+        'thorough': [
+            ('dial-auth-clear-b2', 'Session', cfg(OP='"Dial"', N='1', MAXR='1', BUDGET='2', CAPSETS='{{}}', CLASSES='{"t4", "p5", "drop", "mal"}',
+                                                  AUTHTYPES='{"PLAIN-NOENC", "LOGIN-NOENC", "CRAM-MD5", "XOAUTH2", "SCRAM-SHA-1", "SCRAM-SHA-256", "AUTODISCOVER"}',
+                                                  AUTHLISTS='{{"PLAIN", "LOGIN", "CRAM-MD5", "XOAUTH2", "SCRAM-SHA-1", "SCRAM-SHA-256", "SCRAM-SHA-1-PLUS", "SCRAM-SHA-256-PLUS"}}', LOGAUTH='BOOLEAN', LOGGERS='{"capture", "std", "json"}')),
+            ('dial-auth-tls-b2', 'Session', cfg(OP='"Dial"', N='1', MAXR='1', BUDGET='2', CAPSETS='{{}}', CLASSES='{"t4", "p5", "drop", "mal"}',
+                                                POLICIES='{"mandatory", "opportunistic"}', STARTTLSADV='{TRUE}',
+                                                AUTHTYPES='{"PLAIN", "LOGIN", "CRAM-MD5", "SCRAM-SHA-256-PLUS", "SCRAM-SHA-1-PLUS", "AUTODISCOVER"}',
+                                                AUTHLISTS='{{"PLAIN", "LOGIN", "CRAM-MD5", "XOAUTH2", "SCRAM-SHA-1", "SCRAM-SHA-256", "SCRAM-SHA-1-PLUS", "SCRAM-SHA-256-PLUS"}}', LOGAUTH='BOOLEAN', LOGGERS='{"capture", "std", "json"}')),
+            ('dialandsend-after-auth-b2', 'Session', cfg(OP='"DialAndSend"', N='2', MAXR='1', BUDGET='2', CAPSETS='{{}}', CLASSES='{"p5", "drop"}',
+                                                  AUTHTYPES='{"PLAIN-NOENC", "LOGIN-NOENC", "CRAM-MD5", "SCRAM-SHA-256", "XOAUTH2"}',
+                                                  AUTHLISTS='{{"PLAIN", "LOGIN", "CRAM-MD5", "XOAUTH2", "SCRAM-SHA-1", "SCRAM-SHA-256", "SCRAM-SHA-1-PLUS", "SCRAM-SHA-256-PLUS"}}', LOGAUTH='BOOLEAN', LOGGERS='{"capture", "std", "json"}')),
+        ],
+    },
+    'C07': {
+        'quick': [
+            ('dial-policy-auth-matrix', 'Session', cfg(OP='"Dial"', N='1', MAXR='1', BUDGET='0', CAPSETS='{{}}',
+                POLICIES='{"mandatory", "opportunistic", "none"}', STARTTLSADV='BOOLEAN', HOSTKINDS='{"localhost", "other"}',
+                HANDSHAKES='{"ok", "wrongname", "untrusted", "garbage"}',
+                AUTHTYPES='{"NOAUTH", "PLAIN", "PLAIN-NOENC", "LOGIN", "LOGIN-NOENC", "CRAM-MD5", "XOAUTH2", "SCRAM-SHA-1", "SCRAM-SHA-256", "SCRAM-SHA-1-PLUS", "SCRAM-SHA-256-PLUS", "AUTODISCOVER"}',
+                AUTHLISTS='{{}, {"PLAIN", "LOGIN"}, {"LOGIN", "CRAM-MD5"}, {"PLAIN", "XOAUTH2", "SCRAM-SHA-256-PLUS"}, {"PLAIN", "LOGIN", "CRAM-MD5", "XOAUTH2", "SCRAM-SHA-1", "SCRAM-SHA-256", "SCRAM-SHA-1-PLUS", "SCRAM-SHA-256-PLUS"}}')),
+            ('dial-starttls-faults', 'Session', cfg(OP='"Dial"', N='1', MAXR='1', BUDGET='1', CAPSETS='{{}}', CLASSES='{"t4", "p5", "garbage", "drop"}',
+                POLICIES='{"mandatory", "opportunistic"}', STARTTLSADV='{TRUE}', HOSTKINDS='{"other"}',
+                AUTHTYPES='{"PLAIN", "LOGIN", "AUTODISCOVER"}', AUTHLISTS='{{"PLAIN", "LOGIN"}}')),
+            ('dialandsend-mandatory', 'Session', cfg(OP='"DialAndSend"', N='1', MAXR='1', BUDGET='1', CAPSETS='{{}}',
+                POLICIES='{"mandatory"}', STARTTLSADV='BOOLEAN', HANDSHAKES='{"ok", "untrusted"}',
+                AUTHTYPES='{"NOAUTH", "PLAIN"}', AUTHLISTS='{{"PLAIN"}}')),
+        ],
+        'thorough': [
+            ('dial-policy-auth-matrix-b1', 'Session', cfg(OP='"Dial"', N='1', MAXR='1', BUDGET='1', CAPSETS='{{}}', CLASSES='{"t4", "p5", "garbage", "drop"}',
+                POLICIES='{"mandatory", "opportunistic", "none"}', STARTTLSADV='BOOLEAN', HOSTKINDS='{"localhost", "other"}',
+                HANDSHAKES='{"ok", "wrongname", "untrusted", "garbage"}',
+                AUTHTYPES='{"NOAUTH", "PLAIN", "PLAIN-NOENC", "LOGIN", "LOGIN-NOENC", "CRAM-MD5", "XOAUTH2", "SCRAM-SHA-1", "SCRAM-SHA-256", "SCRAM-SHA-1-PLUS", "SCRAM-SHA-256-PLUS", "AUTODISCOVER"}',
+                AUTHLISTS='{{}, {"PLAIN", "LOGIN"}, {"LOGIN", "CRAM-MD5"}, {"PLAIN"}, {"XOAUTH2"}, {"PLAIN", "XOAUTH2", "SCRAM-SHA-256-PLUS"}, {"SCRAM-SHA-1"}, {"PLAIN", "LOGIN", "CRAM-MD5", "XOAUTH2", "SCRAM-SHA-1", "SCRAM-SHA-256", "SCRAM-SHA-1-PLUS", "SCRAM-SHA-256-PLUS"}}')),
+            ('dialandsend-mandatory-b2', 'Session', cfg(OP='"DialAndSend"', N='1', MAXR='2', BUDGET='2', CAPSETS='{{}}',
+                POLICIES='{"mandatory", "opportunistic"}', STARTTLSADV='BOOLEAN', HANDSHAKES='{"ok", "untrusted", "wrongname"}',
+                AUTHTYPES='{"NOAUTH", "PLAIN", "AUTODISCOVER"}', AUTHLISTS='{{"PLAIN", "LOGIN"}}')),
+        ],
+    },
     'C20': {
         'quick': [
             ('send-2x2-b2-shapes', 'Session', cfg(SHAPES='{"lead", "later", "none"}', CLASSES='{"t4", "p5"}',
@@ -176,6 +227,15 @@ def signature(begin):
     return {'op': c.get('op'), 'render_fault': any(x != 'ok' for x in c.get('rf', [])),
             'faulted': sorted({e['v'] for e in begin.get('env') or []}),
             'policy': c.get('policy'), 'authtype': c.get('authtype')}
+
+
+# vacuity guards: counters of the trace monitor that must be positive for a property's run
+VACUITY = {
+    'C16': ['logs', 'leaks', 'postlogs', 'credcmds'],   # leaks > 0: with WithLogAuthData the scanner sees the secrets
+    'C07': ['clearcmds', 'enccmds', 'credcmds'],
+    'C17': ['stalls'],
+    'C03': ['acked'], 'C04': ['failfacts'], 'C20': ['judged'], 'C19': ['closes'],
+}
 
 
 def nontrivial(begin):
@@ -389,6 +449,60 @@ def _mut_stall_ok(evs):
     return evs
 
 
+def _mut_log(evs, k, v, need_post):
+    if evs[0]['cfg'].get('logauth'):
+        return None
+    i = _find(evs, lambda e: e['ev'] == 'log' and (e['post'] or not need_post))
+    if i < 0:
+        return None
+    evs[i][k] = v
+    return evs
+
+
+def _mut_clear(evs):
+    c = evs[0]['cfg']
+    if c.get('policy') != 'mandatory':
+        return None
+    i = _find(evs, lambda e: e['ev'] == 'cmd' and e['enc'] and e['verb'] not in ('EHLO', 'QUIT'))
+    if i < 0:
+        return None
+    evs[i]['enc'] = False
+    return evs
+
+
+def _mut_cred(evs):
+    c = evs[0]['cfg']
+    if c.get('hostkind') != 'other' or c.get('noenc'):
+        return None
+    i = _find(evs, lambda e: e['ev'] == 'cmd' and e['enc'] and e['cred'] and e['verb'] == 'AUTH' and e['mech'] == 'PLAIN')
+    if i < 0:
+        return None
+    evs[i]['enc'] = False
+    return evs
+
+
+def _mut_autodiscover(evs):
+    c = evs[0]['cfg']
+    if c.get('authtype') != 'AUTODISCOVER':
+        return None
+    i = _find(evs, lambda e: e['ev'] == 'cmd' and not e['enc'] and e['verb'] == 'AUTH')
+    if i < 0:
+        return None
+    evs[i]['mech'] = 'PLAIN'
+    return evs
+
+
+def _mut_badcert(evs):
+    c = evs[0]['cfg']
+    if c.get('hs') not in ('wrongname', 'untrusted'):
+        return None
+    i = _find(evs, lambda e: e['ev'] == 'tls' and not e['ok'])
+    if i < 0:
+        return None
+    evs[i]['ok'] = True
+    return evs
+
+
 SELFTESTS = {
     'C03': [('eod complete->prefix', mut_eod_prefix, 'C03_CompleteOnly'),
             ('flip delivered', mut_flip_delivered, 'C03_DeliveredIffAck'),
@@ -406,6 +520,12 @@ SELFTESTS = {
             ('joined error count', mut_nerrs, 'C20_OneEntryPerFailedMessage')],
     'C17': [('late return', lambda evs: _mut_ret(evs, 'elapsed', 'late'), 'C17_Bounded'),
             ('success despite stall', lambda evs: _mut_stall_ok(evs), 'C17_ErrorOnStall')],
+    'C16': [('secret in a log record', lambda evs: _mut_log(evs, 'leak', True, False), 'C16_NoSecretInLog'),
+            ('record after authentication still redacted', lambda evs: _mut_log(evs, 'verbatim', False, True), 'C16_WindowCloses')],
+    'C07': [('command in clear under mandatory TLS', lambda evs: _mut_clear(evs), 'C07_MandatoryTLS'),
+            ('password in clear', lambda evs: _mut_cred(evs), 'C07_CredInTLS'),
+            ('autodiscover picks PLAIN in clear', lambda evs: _mut_autodiscover(evs), 'C07_AutoDiscover'),
+            ('invalid certificate accepted', lambda evs: _mut_badcert(evs), 'C07_CertValidated')],
     'C19': [('close removed', mut_no_close, 'C19_ClosedOnError'),
             ('QUIT removed', mut_no_quit, 'C19_ClosedAfterDialAndSend')],
 }
